@@ -255,6 +255,8 @@ class Repo(object):
                         if isinstance(prev, ast.FunctionDef) \
                                 and prev.name == alias:
                             found = prev
+            if found is None and isinstance(node, ast.ClassDef):
+                found = self._inherited(rel, node, part)
             if found is None:
                 raise AnalysisError('anchor %s not found in %s'
                                     % (qualname, rel))
@@ -265,10 +267,64 @@ class Repo(object):
                                 % (qualname, rel))
         return node
 
+    def _inherited(self, rel, cls, name):
+        """A method that `cls` inherits from a helper base class of the same
+        module which has no reviewed counterpart (introduced by a later
+        refactoring): a copy of it that is read *as the method of cls*
+        (`_ctx_cls`), so that self.CONST / self.helper() resolve in cls
+        first.  None otherwise."""
+        from . import reviewed
+        store = reviewed.store()
+        classes = dict((c.name, c) for c in self.mod(rel).tree.body
+                       if isinstance(c, ast.ClassDef))
+        cache = self.__dict__.setdefault('_inh_cache', {})
+        ck = (rel, cls.name, name)
+        if ck in cache:
+            return cache[ck]
+        cur, seen, res = cls, {cls.name}, None
+        while res is None:
+            nxt = None
+            for b in cur.bases:
+                if isinstance(b, ast.Name) and b.id in classes \
+                        and b.id not in seen:
+                    nxt = classes[b.id]
+                    break
+            if nxt is None:
+                break
+            seen.add(nxt.name)
+            cur = nxt
+            if any(k.startswith('%s::%s.' % (rel, cur.name)) for k in store):
+                break       # a reviewed base class: inheritance as reviewed
+            for f in cur.body:
+                if isinstance(f, ast.FunctionDef) and f.name == name:
+                    cp = ast.parse(ast.unparse(f)).body[0]
+                    ast.increment_lineno(cp, f.lineno - 1)
+                    for x in ast.walk(cp):
+                        for ch in ast.iter_child_nodes(x):
+                            ch._parent = x
+                    cp._parent = f._parent
+                    cp._rel = rel
+                    cp._qual = '%s.%s' % (cls.name, name)
+                    cp._ctx_cls = cls
+                    res = cp
+        cache[ck] = res
+        return res
+
     def methods(self, rel, clsname):
         """name -> FunctionDef as finally bound in the class body."""
         c = self.cls(rel, clsname)
         out = {}
+        # inherited from helper base classes introduced after the review
+        from . import reviewed
+        prefix = '%s::%s.' % (rel, clsname)
+        for k in reviewed.store():
+            if k.startswith(prefix) and '.' not in k[len(prefix):]:
+                nm = k[len(prefix):]
+                if not any(isinstance(x, ast.FunctionDef) and x.name == nm
+                           for x in c.body):
+                    inh = self._inherited(rel, c, nm)
+                    if inh is not None:
+                        out[nm] = inh
         for stmt in c.body:
             if isinstance(stmt, ast.FunctionDef):
                 out[stmt.name] = stmt
